@@ -514,7 +514,8 @@ class Ctx:
         replay.setdefault("property", self.id)
         replay.setdefault("seed", self.seed)
         replay.setdefault("tier", self.tier)
-        replay.setdefault("replay_cmd", "cd /verif && ./vcheck %s --replay %s" % (self.id, path))
+        replay.setdefault("replay_cmd", "cd /verif && %s./vcheck %s --replay %s" % (
+            "" if SHADOW is None else "VERIF_REPO=%s " % os.path.realpath(REPO), self.id, path))
         with open(path, "w") as f:
             json.dump(replay, f, indent=1, default=str)
         self.violations.append(path)
